@@ -39,6 +39,22 @@ SplitInt(bounds, i) ==
       j == IF i < 0 THEN PyMod(i, last) ELSE i
       ch == FindChunk(bounds, j)
   IN <<<<ch, j - bounds[ch + 1], j - bounds[ch + 1] + 1>>>>
+\* list branch: item is a strictly increasing sequence of global indices (0-based)
+SplitList(bounds, item) ==
+  LET chunks == [i \in 1..Len(item) |-> FindChunk(bounds, item[i])]
+      uniq == {chunks[i] : i \in 1..Len(item)}
+      RECURSIVE Asc(_)
+      Asc(S) == IF S = {} THEN <<>> ELSE LET m == CHOOSE x \in S : \A y \in S : x <= y IN <<m>> \o Asc(S \ {m})
+      us == Asc(uniq)
+  IN [k \in 1..Len(us) |-> LET ch == us[k]  i0 == bounds[ch + 1]  i1 == bounds[ch + 2]
+                                sel == SelectSeq(item, LAMBDA x : i0 <= x /\ x < i1)
+                            IN <<ch, [j \in 1..Len(sel) |-> sel[j] - i0]>>]
+RECURSIVE StackList(_, _)
+StackList(bounds, sub) == IF sub = <<>> THEN <<>> ELSE
+   LET h == Head(sub) IN [i \in 1..Len(h[2]) |-> bounds[h[1] + 1] + h[2][i]] \o StackList(bounds, Tail(sub))
+AscSeq(S) == LET RECURSIVE f(_)
+                   f(T) == IF T = {} THEN <<>> ELSE LET m == CHOOSE x \in T : \A y \in T : x <= y IN <<m>> \o f(T \ {m})
+               IN f(S)
 \* rows read from each part, concatenated (global ids)
 RECURSIVE Stack(_, _)
 Stack(bounds, sub) == IF sub = <<>> THEN <<>> ELSE
@@ -57,17 +73,23 @@ Request == /\ pc = "idle"
               \/ \E a \in BoundVals(N(parts)), b \in BoundVals(N(parts)) :
                     /\ NumpySlice(N(parts), a, b) # <<>>
                     /\ req' = <<"slice", a, b>>
+              \/ \E S \in (SUBSET (0..(N(parts) - 1))) \ {{}} : req' = <<"list", AscSeq(S), 0>>
            /\ pc' = "req" /\ UNCHANGED <<parts, sub, out>>
 Split == /\ pc = "req"
-         /\ sub' = IF req[1] = "int" THEN SplitInt(Bounds(parts), req[2]) ELSE SplitSlice(Bounds(parts), req[2], req[3])
+         /\ sub' = IF req[1] = "int" THEN SplitInt(Bounds(parts), req[2])
+                   ELSE IF req[1] = "list" THEN SplitList(Bounds(parts), req[2])
+                   ELSE SplitSlice(Bounds(parts), req[2], req[3])
          /\ pc' = "split" /\ UNCHANGED <<parts, req, out>>
-Read == /\ pc = "split" /\ out' = Stack(Bounds(parts), sub) /\ pc' = "done" /\ UNCHANGED <<parts, req, sub>>
+Read == /\ pc = "split" /\ out' = (IF req[1] = "list" THEN StackList(Bounds(parts), sub) ELSE Stack(Bounds(parts), sub)) /\ pc' = "done" /\ UNCHANGED <<parts, req, sub>>
 Next == Request \/ Split \/ Read
 Spec == Init /\ [][Next]_vars
-Expected == IF req[1] = "int" THEN NumpyInt(N(parts), req[2]) ELSE NumpySlice(N(parts), req[2], req[3])
+Expected == IF req[1] = "int" THEN NumpyInt(N(parts), req[2])
+            ELSE IF req[1] = "list" THEN req[2]
+            ELSE NumpySlice(N(parts), req[2], req[3])
 SplitCorrect == pc = "done" => out = Expected
-WellFormed == pc = "split" => /\ sub # <<>>
-                              /\ \A k \in 1..Len(sub) : /\ sub[k][2] < sub[k][3] /\ sub[k][2] >= 0
-                                                        /\ sub[k][3] <= parts[sub[k][1] + 1]
-                              /\ \A k \in 1..(Len(sub) - 1) : sub[k][1] < sub[k+1][1]
+WellFormed == (pc = "split" /\ req[1] # "list") =>
+                 /\ sub # <<>>
+                 /\ \A k \in 1..Len(sub) : /\ sub[k][2] < sub[k][3] /\ sub[k][2] >= 0
+                                           /\ sub[k][3] <= parts[sub[k][1] + 1]
+                 /\ \A q \in 1..(Len(sub) - 1) : sub[q][1] < sub[q + 1][1]
 ====
